@@ -409,6 +409,128 @@ pub fn run(ctx: &Ctx) -> i32 {
             conform(ctx, "many-chunks", &case, &f, &Want::all());
         });
     }
+
+    // large, highly compressible payloads under every storage choice
+    if ctx.wants_family("compressible-large") {
+        // (label, format, w, h, canvas w, canvas h)
+        let mut shapes: Vec<(&str, Fmt, u16, u16, u16, u16)> = vec![
+            ("rgba 256x256", Fmt::Rgba, 256, 256, 8, 8),
+            ("rgba 512x512", Fmt::Rgba, 512, 512, 8, 8),
+            ("rgba 512x512 full canvas", Fmt::Rgba, 512, 512, 512, 512),
+            ("rgba 1024x384", Fmt::Rgba, 1024, 384, 8, 8),
+            ("indexed 1024x1024", Fmt::Indexed(0), 1024, 1024, 8, 8),
+            ("gray 1024x1024", Fmt::Gray, 1024, 1024, 8, 8),
+        ];
+        if thorough {
+            shapes.push(("rgba 2048x2048", Fmt::Rgba, 2048, 2048, 8, 8));
+            shapes.push(("indexed 4096x4096", Fmt::Indexed(0), 4096, 4096, 8, 8));
+            shapes.push(("rgba 1024x1024 full canvas", Fmt::Rgba, 1024, 1024, 1024, 1024));
+        }
+        let contents = ["zeros", "solid", "two-row stripes", "noise"];
+        let levels: Vec<Option<u32>> = vec![None, Some(0), Some(1), Some(2), Some(3), Some(6), Some(9)];
+        let mut cases: Vec<(usize, usize, usize)> = Vec::new(); // (shape, content, carrier)
+        for s in 0..shapes.len() {
+            for c in 0..contents.len() {
+                for carrier in 0..3 {
+                    cases.push((s, c, carrier));
+                }
+            }
+        }
+        ctx.family("compressible-large", (cases.len() * levels.len()) as u64, &format!("{} payload shapes (256 KiB .. 4 MiB{}) x content {{all zeros, one solid colour, two-row stripes, noise}} x carrier {{image cel, tileset pixels, tilemap tile ids}} stored raw (cels) and at zlib levels 0/1/2/3/6/9: the deflate ratio of the uniform contents is above 1000:1 from level 2 on; every storage choice must load and give the observation of the first one", shapes.len(), if thorough { ", thorough: 16 MiB" } else { "" }), true);
+        cases.par_iter().for_each(|(si, ci, carrier)| {
+            let (sl, fmt, w, h, cw, ch) = &shapes[*si];
+            let bpp = fmt.bpp();
+            let n = *w as usize * *h as usize;
+            let px: Vec<u8> = match ci {
+                0 => vec![0u8; n * bpp],
+                1 => match fmt {
+                    Fmt::Rgba => [200u8, 100, 50, 255].iter().cycle().take(n * 4).copied().collect(),
+                    Fmt::Gray => [90u8, 255].iter().cycle().take(n * 2).copied().collect(),
+                    Fmt::Indexed(_) => vec![2u8; n],
+                },
+                2 => (0..n * bpp).map(|i| if (i / (*w as usize * bpp)) % 2 == 0 { 3 } else { 1 }).collect(),
+                _ => {
+                    let mut x = 0x2545F491u32;
+                    (0..n * bpp)
+                        .map(|_| {
+                            x ^= x << 13;
+                            x ^= x >> 17;
+                            x ^= x << 5;
+                            if matches!(fmt, Fmt::Indexed(_)) {
+                                (x % 4) as u8
+                            } else {
+                                x as u8
+                            }
+                        })
+                        .collect()
+                }
+            };
+            let build = |lvl: Option<u32>| -> Option<File> {
+                let mut f = gen::file(*cw, *ch, fmt, &[10]);
+                f.frames[0].push(new_palette(0, pal_entries(4, 1)));
+                match carrier {
+                    0 => {
+                        f.frames[0].push(Body::Layer(Layer::image("l")));
+                        f.frames[0].push(match lvl {
+                            None => raw_cel(0, 0, 0, 255, *w, *h, px.clone()),
+                            Some(l) => zcel(0, 0, 0, 255, *w, *h, px.clone(), l),
+                        });
+                    }
+                    1 => {
+                        // tiles of 64 x 64
+                        let lvl = lvl?;
+                        let ntiles = (n / (64 * 64)) as u32;
+                        let mut ts = tileset(0, ntiles, 64, 64, px.clone(), "t");
+                        ts.z = Zlib::Level(lvl);
+                        f.frames[0].push(Body::Tileset(ts));
+                        f.frames[0].push(Body::Layer(Layer::tilemap("l", 0)));
+                        f.frames[0].push(tm_cel(0, 0, 0, 255, 2, 2, vec![0, 1, 2, 3]));
+                    }
+                    _ => {
+                        // tile ids: the payload interpreted as n*bpp/4 tile ids of a 4-tile tileset of 1x1 tiles
+                        let lvl = lvl?;
+                        let ids: Vec<u32> = px.chunks_exact(4).map(|c| (c[0] as u32) % 4).collect();
+                        let tw = *w;
+                        let th = (ids.len() / tw as usize) as u16;
+                        f.frames[0].push(Body::Tileset(tileset(0, 4, 1, 1, tile_pixels(fmt, 4, 1, 1, 3, (1, 3)), "t")));
+                        f.frames[0].push(Body::Layer(Layer::tilemap("l", 0)));
+                        let mut c = tm_cel(0, 0, 0, 255, tw, th, ids[..tw as usize * th as usize].to_vec());
+                        if let Body::Cel(cc) = &mut c {
+                            if let CelBody::Tilemap { z, .. } = &mut cc.body {
+                                *z = Zlib::Level(lvl);
+                            }
+                        }
+                        f.frames[0].push(c);
+                    }
+                }
+                Some(f)
+            };
+            let mut want = Want::all();
+            let mut canon: Option<Obs> = None;
+            for lvl in &levels {
+                let case = || format!("{} {} in {} stored {}", sl, contents[*ci], ["an image cel", "a tileset", "a tilemap cel"][*carrier], lvl.map_or("raw".to_string(), |l| format!("zlib level {}", l)));
+                let Some(f) = build(*lvl) else { continue };
+                if !ctx.wants("compressible-large", &case) && canon.is_some() {
+                    continue;
+                }
+                let bytes = f.encode();
+                ctx.eval(1);
+                match load(&bytes) {
+                    Loaded::Ok(file) => {
+                        let o = observe::observe(&file, &want);
+                        ctx.outcome(hash64(&(si, ci, carrier, o.frames.first().map(|f| f.image.clone()))));
+                        match &canon {
+                            None => canon = Some(o),
+                            Some(c) if *c == o => {}
+                            Some(c) => ctx.violation(Violation { family: "compressible-large".into(), case: case(), sig: "differs-from-first-storage".into(), detail: first_diff(c, &o), bytes: None, extra: json!({}) }),
+                        }
+                    }
+                    Loaded::Err(e) => ctx.violation(Violation { family: "compressible-large".into(), case: case(), sig: format!("refused:{}", sig_of(&e.to_string())), detail: format!("a valid file ({} bytes) was refused: {}", bytes.len(), e), bytes: if bytes.len() < 300_000 { Some(bytes) } else { None }, extra: json!({}) }),
+                    Loaded::Panic(m) => ctx.violation(Violation { family: "compressible-large".into(), case: case(), sig: format!("panic:{}", sig_of(&m)), detail: m, bytes: None, extra: json!({}) }),
+                }
+            }
+        });
+    }
     ctx.note("the header flag word is held at 1: Aseprite gives bit 0 a meaning (layer opacity valid), so varying it is not neutral and is not claimed");
     ctx.finish()
 }
